@@ -162,7 +162,11 @@ def derived_map(rng, Fk, ax, bk, ek, bn, en, d, flip=False):
         tr = [sp.expand(e.xreplace(rev)) for e in tr]
         nd = [sp.expand(e.xreplace(rev)) for e in nd]
     s = -sp.Integer(ek) / sp.Integer(en)                 # the new patch continues beyond the face
-    alpha = s * Rational(rng.choice([1, 2, 3, 5]), rng.choice([2, 3, 4]))
+    while True:
+        alpha = Rational(rng.choice([1, 2, 3, 5]), rng.choice([2, 3, 4]))
+        if alpha != 1:                                   # det J_new = alpha * det J_known on the face: must differ
+            break
+    alpha = s * alpha
     tang = [j for j in range(d) if j != ax]
     beta = {j: Rational(rng.randint(-2, 2), 5) for j in tang}
     w = LS[ax] - bn
@@ -230,6 +234,10 @@ class Parts:
 
 
 class Ambiguous(Exception):
+    pass
+
+
+class RestrictionLost(Exception):
     pass
 
 
@@ -350,7 +358,7 @@ class KernelValue:
                 raise ser.Unsupported("vector component")
             if a["s"] == "0":
                 if len(self.frames) != 1:
-                    raise ser.Unsupported("a function without restriction in an interface kernel")
+                    raise RestrictionLost("the function %s appears without restriction in a kernel over the interface" % a["f"])
                 i = list(self.frames)[0]
                 s = self.side_of_patch[i]
             else:
@@ -467,6 +475,10 @@ def oracle_if(case, kernels, maps):
         kv = KernelValue(case, Fs, P, base, frames, {im: "-", ip: "+"}, nsign)
         try:
             ke = kv.sx(k["expr"])
+        except RestrictionLost as e:
+            o.update(ok=False, info={"why": str(e)}, unexpected=False, restriction_lost=True)
+            out["kernels"].append(o)
+            continue
         except ser.Unsupported as e:
             o.update(ok=None, why="unsupported: %s" % e)
             out["kernels"].append(o)
